@@ -205,6 +205,31 @@ def unhex(h):
     return bytes.fromhex(h) if h is not None else None
 
 
+def generic_replay(ctx, a):
+    """replay files of the behaviour checks carry the typed history and the expected state of the failing step: type the
+    history again and compare.  Returns None when the file is of another kind (the check then runs as a whole)."""
+    r = a.replay_obj
+    if not (isinstance(r, dict) and "history" in r and "expected" in r and ("typed" in r or "keys" in r)):
+        return None
+    if "typed" in r and isinstance(r.get("expected"), dict) and "out" in r["expected"]:       # ex scripts (editor.py)
+        import editor
+        steps = [{"typed": [ord(c) for c in h], "exp": None, "kinds": []} for h in r["history"]]
+        steps[-1]["exp"] = r["expected"]
+        for s_ in steps[:-1]:
+            s_["exp"] = "skip"
+        res = editor.replay_script(ctx, {"seed": r.get("seed"), "profile": r.get("profile"), "steps": steps})
+    elif "keys" in r and isinstance(r.get("expected"), dict) and "xcol" in r["expected"]:    # vi scripts (vidrive.py)
+        import vidrive
+        res = vidrive.replay_script(ctx, r)
+    else:
+        return None
+    print(json.dumps(res, default=str)[:1500])
+    if res.get("field"):
+        print("VIOLATION property=%s replay=%s" % (a.pid, os.path.abspath(a.replay)))
+        return 1
+    return 0
+
+
 def run_main(fn):
     """entry point used by bin/check"""
     import argparse
@@ -220,7 +245,9 @@ def run_main(fn):
         a.replay_obj = a.replay_obj.get("replay", a.replay_obj)
     ctx = Ctx(a.pid, a.tier, seed, wipe=not a.replay)
     try:
-        rc = fn(ctx, a)
+        rc = generic_replay(ctx, a) if a.replay_obj else None
+        if rc is None:
+            rc = fn(ctx, a)
     except Infra as e:
         print("INFRASTRUCTURE ERROR (%s): %s" % (a.pid, e), file=sys.stderr)
         rc = 2
